@@ -306,9 +306,10 @@ var locks = map[uintptr]*lockState{}
 var onces = map[uintptr]int{} // 0 not run, 1 running, 2 done
 var atomicAddrs = map[uintptr]bool{}
 
+// ResetSync forgets lock ownership between scenarios. Once state is process-wide, exactly
+// like sync.Once itself, and is never reset.
 func ResetSync() {
 	locks = map[uintptr]*lockState{}
-	onces = map[uintptr]int{}
 	atomicAddrs = map[uintptr]bool{}
 }
 
@@ -426,11 +427,15 @@ func RWRUnlock(m *sync.RWMutex) {
 }
 
 func OnceDo(o *sync.Once, f func()) {
+	addr := uintptr(unsafe.Pointer(o))
 	if !sch.attached.Load() {
+		if onces[addr] == 2 {
+			return
+		}
 		o.Do(f)
+		onces[addr] = 2
 		return
 	}
-	addr := uintptr(unsafe.Pointer(o))
 	for onces[addr] == 1 {
 		Yield(-1)
 	}
@@ -442,6 +447,7 @@ func OnceDo(o *sync.Once, f func()) {
 	f()
 	hook("release", addr)
 	onces[addr] = 2
+	o.Do(func() {}) // the real Once is done as well, whoever looks at it later
 }
 
 // AtomicAddr marks the address as accessed atomically and returns it unchanged.
